@@ -9,7 +9,10 @@
 //! **Format:** `5n3!a15d` (number, currency, amount)
 //! **Used in:** MT 940, MT 942 (statement messages)
 
-use super::swift_utils::{parse_amount, parse_currency, parse_swift_digits};
+use super::swift_utils::{
+    format_swift_amount_for_currency, parse_amount_with_currency, parse_currency,
+    parse_swift_digits,
+};
 use crate::errors::ParseError;
 use crate::traits::SwiftField;
 use serde::{Deserialize, Serialize};
@@ -102,7 +105,7 @@ impl SwiftField for Field90D {
             });
         }
 
-        let amount = parse_amount(remaining)?;
+        let amount = parse_amount_with_currency(remaining, &currency)?;
 
         Ok(Field90D {
             number,
@@ -112,7 +115,7 @@ impl SwiftField for Field90D {
     }
 
     fn to_swift_string(&self) -> String {
-        let amount_str = format!("{:.2}", self.amount).replace('.', ",");
+        let amount_str = format_swift_amount_for_currency(self.amount, &self.currency);
         format!(":90D:{}{}{}", self.number, self.currency, amount_str)
     }
 }
@@ -205,7 +208,7 @@ impl SwiftField for Field90C {
             });
         }
 
-        let amount = parse_amount(remaining)?;
+        let amount = parse_amount_with_currency(remaining, &currency)?;
 
         Ok(Field90C {
             number,
@@ -215,7 +218,7 @@ impl SwiftField for Field90C {
     }
 
     fn to_swift_string(&self) -> String {
-        let amount_str = format!("{:.2}", self.amount).replace('.', ",");
+        let amount_str = format_swift_amount_for_currency(self.amount, &self.currency);
         format!(":90C:{}{}{}", self.number, self.currency, amount_str)
     }
 }
